@@ -35,6 +35,10 @@ const CLASSES: [(&str, &str); 8] = [
     ("empty", ""),
 ];
 
+/// Extra classes for rule keys only (they become XML element names): already valid names must be kept as they are, a
+/// leading digit must not produce an invalid name.
+const KEY_CLASSES: [(&str, &str); 3] = [("name-chars", "a-b.c_d9"), ("digit-first", "9lives"), ("underscore-first", "_x")];
+
 const FORMATS: [&str; 6] = ["debug", "json-pretty", "json", "xml", "bson-hex", "bson-base64"];
 const MODES: [&str; 2] = ["generic", "protocol-specific"];
 
@@ -639,6 +643,11 @@ impl Prop for C19 {
                     }
                     for (cname, ctext) in CLASSES.iter().skip(1) {
                         singles.push((slot, cname, sanitize(g.id, slot, ctext)));
+                    }
+                    if *slot == "rule-key" {
+                        for (cname, ctext) in KEY_CLASSES.iter() {
+                            singles.push((slot, cname, sanitize(g.id, slot, ctext)));
+                        }
                     }
                 }
                 for a in &singles {
